@@ -9,12 +9,14 @@
   the byte offset given by the sizes before it (`PlacedAt`, Lemmas/TwoOutputs).
 -/
 import BB.Lemmas.TwoOutputs
+import BB.Lemmas.LayoutAnchor
 import BB.Props.C12Program
 set_option linter.unusedSimpArgs false
 set_option linter.unusedVariables false
 namespace BB.Lemmas
 open BB BB.Spec
 open BB.Props.C03 (Land Finish Stage)
+open BB.Props.C04 (Layout layoutOf)
 
 /-! ### blocks with a per-item description -/
 
@@ -103,7 +105,7 @@ inductive Zip {α β : Type} (Q : α → β → Prop) : List α → List β → 
 
 theorem resolveConstants_keep (H : Hooks) {s : Item} (hs : ∀ l n e, s ≠ .constant l n e) (A : List Item) :
     ∀ (B : List Item) (c : Dict) (out : List Item) (c' : Dict), resolveConstants H (A ++ s :: B) c = .ok (out, c') →
-    ∃ A1 B1, out = A1 ++ s :: B1 := by
+    ∃ A1 B1, out = A1 ++ s :: B1 ∧ Expands A A1 ∧ Expands B B1 := by
   induction A with
   | nil =>
     intro B c out c' h
@@ -114,7 +116,7 @@ theorem resolveConstants_keep (H : Hooks) {s : Item} (hs : ∀ l n e, s ≠ .con
     | error e => simp [hr] at h
     | ok r =>
       simp only [hr, pure, Except.pure, Except.ok.injEq, Prod.mk.injEq] at h
-      exact ⟨[], r.1, by rw [← h.1]; rfl⟩
+      exact ⟨[], r.1, by rw [← h.1]; rfl, .nil, resolveConstants_expands H B c r.1 r.2 hr⟩
   | cons a A ih =>
     intro B c out c' h
     by_cases hc : ∃ l n e, a = .constant l n e
@@ -130,7 +132,8 @@ theorem resolveConstants_keep (H : Hooks) {s : Item} (hs : ∀ l n e, s ≠ .con
           · simp only [bind, Except.bind] at h
             split at h
             · simp at h
-            · exact ih _ _ _ _ h
+            · obtain ⟨A1, B1, e1, eA, eB⟩ := ih _ _ _ _ h
+              exact ⟨A1, B1, e1, Expands.cons (repl := []) (Img.drop rfl) eA, eB⟩
       | _ => simp at h
     · have ha : ∀ l n e, a ≠ .constant l n e := fun l n e h => hc ⟨l, n, e, h⟩
       have : resolveConstants H (a :: (A ++ s :: B)) c = (do let (o, c2) ← resolveConstants H (A ++ s :: B) c; pure (a :: o, c2)) := by
@@ -141,8 +144,8 @@ theorem resolveConstants_keep (H : Hooks) {s : Item} (hs : ∀ l n e, s ≠ .con
       | ok r =>
         obtain ⟨o, c2⟩ := r
         simp only [hr, pure, Except.pure, Except.ok.injEq, Prod.mk.injEq] at h
-        obtain ⟨A1, B1, rfl⟩ := ih _ _ _ _ hr
-        exact ⟨a :: A1, B1, by rw [← h.1]; rfl⟩
+        obtain ⟨A1, B1, rfl, eA, eB⟩ := ih _ _ _ _ hr
+        exact ⟨a :: A1, B1, by rw [← h.1]; rfl, Expands.cons (repl := [a]) (Img.refl a) eA, eB⟩
 
 /-- a (possibly absent) compression pass, on ghost lists -/
 def CompΦ (H : Hooks) (constants : Dict) (compress : Bool) (s : Item) (r : List Item) : Prop :=
@@ -226,6 +229,41 @@ theorem aliases_map_instr (constants : Dict) (line : Line) (l : List Instr) :
     resolveRegisterAliases (l.map (Item.instr line)) constants = (l.map (fun i => i.mapRegs (aliasReg constants))).map (Item.instr line) := by
   simp [resolveRegisterAliases, List.map_map, Function.comp_def]
 
+/-! ### blocks are images in the sense of `Expands` (Lemmas/Order) -/
+
+theorem blocksP_expands {Φ : Item → List Item → Prop} (hΦ : ∀ s r, Φ s r → Img s r) {a b : List Item}
+    (h : BlocksP Φ a b) : Expands a b := by
+  induction h with
+  | nil => exact .nil
+  | cons hs _ ih => exact .cons (hΦ _ _ hs) ih
+
+/-- an instruction item replaced by another instruction item of the same line -/
+theorem img_instr (line : Line) (i i' : Instr) : Img (.instr line i) [.instr line i'] :=
+  Img.same rfl rfl (fun h => by cases h) (fun h => by cases h) (fun _ => rfl)
+
+theorem compΦ_img {H : Hooks} {constants : Dict} {compress : Bool} {s : Item} {r : List Item}
+    (h : CompΦ H constants compress s r) : Img s r := by
+  rcases h with rfl | ⟨_, line, ins, cf, _, _, _, _, rfl, rfl, _⟩
+  · exact Img.refl s
+  · exact img_instr line ins cf
+
+theorem bodyΦ_img {f : Item → Int → Dict → Except Err (List Item × Int)}
+    (hf : ∀ it p L repl n, (∀ line nm, it ≠ .label line nm) → f it p L = .ok (repl, n) → Img it repl)
+    {s : Item} {r : List Item} (h : BodyΦ f s r) : Img s r := by
+  rcases h with ⟨_, _, _, rfl⟩ | ⟨hnl, q, Lq, n, hb⟩
+  · exact Img.refl s
+  · exact hf s q Lq r n hnl hb
+
+theorem strip_expands : ∀ G : List Item, Expands G (strip G)
+  | [] => .nil
+  | it :: G => by
+    by_cases hl : ∃ l n, it = .label l n
+    · obtain ⟨l, n, rfl⟩ := hl
+      exact Expands.cons (repl := []) (Img.drop rfl) (strip_expands G)
+    · have hnl : ∀ l n, it ≠ .label l n := fun l n e => hl ⟨l, n, e⟩
+      rw [strip_cons_of_not_label hnl]
+      exact Expands.cons (repl := [it]) (Img.refl it) (strip_expands G)
+
 /-- **a source pseudo-instruction, followed to the final list** -/
 theorem pseudo_trace (H : Hooks) (compress : Bool) (items : List Item) (r : AsmResult) (hnn : NonNeg items)
     (h : assembleItems H compress items [] [] = .ok r)
@@ -238,9 +276,12 @@ theorem pseudo_trace (H : Hooks) (compress : Bool) (items : List Item) (r : AsmR
       (∀ ℓ u, labelPos G7 0 ℓ = some u → r.labels.get ℓ = some u) ∧ labelNames G7 = labelNames items ∧
       (compress = true → (∀ ln ins, Item.instr ln ins ∈ items → ins.isCompressed = false) →
         ∀ P' ln cf S', G7 = P' ++ .instr ln cf :: S' → cf.isCompressed = true →
-          DecOracle H r.constants r.labels (labelNames items) (sizeSum P') ln cf) := by
-  obtain ⟨items1, items2, i3, i4, i6, i7, out, l2, l3, l4, l6, _, h1, h2, h3, h4, h6, h7, hland, hbytes⟩ :=
-    assemble_stages_all H compress items r h
+          DecOracle H r.constants r.labels (labelNames items) (sizeSum P') ln cf) ∧
+      (∃ lay, layoutOf H compress items = .ok lay ∧ lay.labels = r.labels ∧ lay.constants = r.constants ∧
+        strip G7 = lay.aligned) ∧
+      Expands A P ∧ Expands B S ∧ NonNeg G7 := by
+  obtain ⟨items1, items2, i3, i4, i6, i7, out, l2, l3, l4, l6, hlay, _, h1, h2, h3, h4, h6, h7, hland, hbytes⟩ :=
+    assemble_anchor H compress items r h
   unfold transformPseudo at h4
   unfold resolveAligns at h7
   obtain ⟨c1, c2, c3⟩ := BB.Props.C03.resolveConstants_spec H items [] items1 r.constants h1
@@ -262,17 +303,17 @@ theorem pseudo_trace (H : Hooks) (compress : Bool) (items : List Item) (r : AsmR
   have b7 := walk_blocksP _ 0 l6 G7 r.labels w7
   -- the item in the list after resolve_constants, and after the aliases
   rw [e] at h1
-  obtain ⟨A1, B1, rfl⟩ := resolveConstants_keep H (by intro l n ex hx; cases hx) A B [] items1 r.constants h1
+  obtain ⟨A1, B1, rfl, xA1, xB1⟩ := resolveConstants_keep H (by intro l n ex hx; cases hx) A B [] items1 r.constants h1
   have eG1 : resolveRegisterAliases (A1 ++ Item.pseudo line name args :: B1) r.constants =
       resolveRegisterAliases A1 r.constants ++ Item.pseudo line name args :: resolveRegisterAliases B1 r.constants := by
     rw [aliases_append, aliases_cons]; rfl
   rw [eG1] at b3
   -- compression pass 1 keeps it
-  obtain ⟨A3, r3, B3, rfl, _, hs3, _⟩ := b3.src_split
+  obtain ⟨A3, r3, B3, rfl, bA3, hs3, bB3⟩ := b3.src_split
   have hr3 := compΦ_not_instr hs3 (by intro l i ex; cases ex)
   subst hr3
   -- the pseudo-instruction pass expands it
-  obtain ⟨A4, r4, B4, rfl, _, hs4, _⟩ := b4.src_split
+  obtain ⟨A4, r4, B4, rfl, bA4, hs4, bB4⟩ := b4.src_split
   have hexp : ∃ q Lq instrs short, expandPseudo H (chainGet r.constants Lq) line name args q = .ok (instrs, short) ∧
       r4 = instrs.map (Item.instr line) := by
     rcases hs4 with ⟨_, _, ex, _⟩ | ⟨_, q, Lq, n, hb⟩
@@ -287,14 +328,28 @@ theorem pseudo_trace (H : Hooks) (compress : Bool) (items : List Item) (r : AsmR
   obtain ⟨q, Lq, instrs, short, hexp, rfl⟩ := hexp
   -- aliases, compression pass 2, resolve_aligns
   rw [aliases_append, aliases_append, aliases_map_instr] at b6
-  obtain ⟨A6, o6, rfl, _, b6'⟩ := b6.append_inv
-  obtain ⟨r6, B6, rfl, b6r, _⟩ := b6'.append_inv
+  obtain ⟨A6, o6, rfl, bA6, b6'⟩ := b6.append_inv
+  obtain ⟨r6, B6, rfl, b6r, bB6⟩ := b6'.append_inv
   have hz := compΦ_instrs line _ r6 b6r
-  obtain ⟨A7, o7, rfl, _, b7'⟩ := b7.append_inv
-  obtain ⟨r7, B7, rfl, b7r, _⟩ := b7'.append_inv
+  obtain ⟨A7, o7, rfl, bA7, b7'⟩ := b7.append_inv
+  obtain ⟨r7, B7, rfl, b7r, bB7⟩ := b7'.append_inv
+  -- the prefix and the suffix, as images of the source prefix and suffix
+  have chain : ∀ {X X1 X3 X4 X6 X7 : List Item}, Expands X X1 →
+      BlocksP (CompΦ H r.constants compress) (resolveRegisterAliases X1 r.constants) X3 →
+      BlocksP (BodyΦ (pseudoBody H r.constants)) X3 X4 →
+      BlocksP (CompΦ H r.constants compress) (resolveRegisterAliases X4 r.constants) X6 →
+      BlocksP (BodyΦ alignBody) X6 X7 → Expands X X7 := by
+    intro X X1 X3 X4 X6 X7 e1 e3 e4 e6 e7
+    exact ((((e1.trans (aliases_expands X1 r.constants)).trans (blocksP_expands (fun _ _ => compΦ_img) e3)).trans
+      (blocksP_expands (fun _ _ => bodyΦ_img (pseudoBody_img H r.constants)) e4)).trans
+      ((aliases_expands X4 r.constants).trans (blocksP_expands (fun _ _ => compΦ_img) e6))).trans
+      (blocksP_expands (fun _ _ => bodyΦ_img alignBody_img) e7)
+  have xA : Expands A A7 := chain xA1 bA3 bA4 bA6 bA7
+  have xB : Expands B B7 := chain xB1 bB3 bB4 bB6 bB7
   have hr7 := align_instrs r6 r7 (zip_all_instr hz) b7r
   subst hr7
-  refine ⟨A7 ++ (r7 ++ B7), A7, r7, B7, q, Lq, instrs, short, rfl, hexp, hz, ?_, st7.agree, st7.names_eq, ?_⟩
+  refine ⟨A7 ++ (r7 ++ B7), A7, r7, B7, q, Lq, instrs, short, rfl, hexp, hz, ?_, st7.agree, st7.names_eq, ?_,
+    ⟨_, hlay, rfl, rfl, rfl⟩, xA, xB, st7.nonneg⟩
   · intro P' a S' eG hnl
     exact placed_of_land hland hbytes eG hnl
   · intro hc hsrc P' ln cf S' eG hcc
@@ -312,5 +367,64 @@ theorem pseudo_trace (H : Hooks) (compress : Bool) (items : List Item) (r : AsmR
       have hq : sizeSum ((strip (A7 ++ (r7 ++ B7))).take i) = sizeSum P' := by rw [htake, sizeSum_strip]
       rw [hq] at htr
       exact htr
+
+/-! ### where the block stands: the byte offset, tied to the layout and to the source prefix -/
+
+/-- **`off` is the byte offset of the source item of `items = A ++ s :: B` (source line `line`) in the output.**
+    `lay` is the layout the model computes (`layoutOf`, Props/C04: a function of the inputs; its tables are the
+    returned ones); the list it holds after resolve_aligns is `P7 ++ blk ++ S7`, where `P7` is the image of the
+    source PREFIX `A` and `S7` of the source SUFFIX `B` (`Expands`, Lemmas/Order: item by item, in order — a marker
+    disappears, data stays one item of the same size, an instruction stays one item, a pseudo-instruction
+    becomes one or two instructions, an `align` becomes its padding), `blk` consists of instruction items of
+    the line `line` only, and `off` is the total size of `P7` — hence `0 ≤ off`, and `off` is the offset `Land`
+    gives the first item of `blk` in `r.bytes`. -/
+def SourceAt (H : Hooks) (compress : Bool) (items : List Item) (r : AsmResult) (A B : List Item) (line : Line)
+    (off : Int) : Prop :=
+  ∃ (lay : Layout) (P7 blk S7 : List Item), layoutOf H compress items = .ok lay ∧ lay.labels = r.labels ∧
+    lay.constants = r.constants ∧ lay.aligned = P7 ++ (blk ++ S7) ∧ Expands A P7 ∧ Expands B S7 ∧
+    blk ≠ [] ∧ (∀ x ∈ blk, ∃ i, x = .instr line i) ∧ off = sizeSum P7 ∧ 0 ≤ off
+
+theorem zip_line {H : Hooks} {constants : Dict} {compress : Bool} {line : Line} {l : List Instr} {xs : List Item}
+    (h : Zip (FinalOf H constants compress line) l xs) : ∀ x ∈ xs, ∃ i, x = .instr line i := by
+  induction h with
+  | nil => intro x hx; simp at hx
+  | cons hq _ ih =>
+    intro x hx
+    rcases List.mem_cons.mp hx with rfl | hx
+    · rcases hq with rfl | ⟨_, cf, _, _, _, _, rfl, _⟩
+      · exact ⟨_, rfl⟩
+      · exact ⟨_, rfl⟩
+    · exact ih x hx
+
+theorem Zip.length_eq {α β : Type} {Q : α → β → Prop} {l : List α} {l' : List β} (h : Zip Q l l') : l.length = l'.length := by
+  induction h with
+  | nil => rfl
+  | cons _ _ ih => simp [ih]
+
+theorem strip_instrs {line : Line} : ∀ {xs : List Item}, (∀ x ∈ xs, ∃ i, x = .instr line i) → strip xs = xs
+  | [], _ => rfl
+  | x :: xs, h => by
+    obtain ⟨i, rfl⟩ := h x List.mem_cons_self
+    rw [strip_cons_of_not_label (by intro l n e; cases e), strip_instrs (fun y hy => h y (List.mem_cons_of_mem _ hy))]
+
+/-- what `pseudo_trace` returns, packaged -/
+theorem sourceAt_of_trace {H : Hooks} {compress : Bool} {items : List Item} {r : AsmResult} {A B G7 P blk S : List Item}
+    {line : Line} {l : List Instr} (eG : G7 = P ++ (blk ++ S))
+    (hz : Zip (FinalOf H r.constants compress line) l blk) (hne : l ≠ [])
+    (hlay : ∃ lay, layoutOf H compress items = .ok lay ∧ lay.labels = r.labels ∧ lay.constants = r.constants ∧
+      strip G7 = lay.aligned)
+    (xA : Expands A P) (xB : Expands B S) (hnn : NonNeg G7) : SourceAt H compress items r A B line (sizeSum P) := by
+  obtain ⟨lay, h1, h2, h3, h4⟩ := hlay
+  have hb := zip_line hz
+  refine ⟨lay, strip P, blk, strip S, h1, h2, h3, ?_, xA.trans (strip_expands P), xB.trans (strip_expands S), ?_, hb,
+    (sizeSum_strip P).symm, ?_⟩
+  · rw [← h4, eG, strip_append, strip_append, strip_instrs hb]
+  · intro e
+    have := hz.length_eq
+    rw [e] at this
+    exact hne (List.length_eq_zero_iff.mp this)
+  · apply sizeSum_nonneg
+    intro y hy
+    exact hnn y (by rw [eG]; exact List.mem_append_left _ hy)
 
 end BB.Lemmas
